@@ -5,6 +5,7 @@
 //verif:obligation C04.c shared TCP listener (multiplexedListener.run and its per-connection goroutines, demultiplexedListener.Accept / Close): for 2 incoming connections whose type identification fails, yields a type with or without a registered listener, or yields a connection that cannot carry a scope, with a consumer that accepts 0..2 connections, the 30 s accept timeout expiring for the rest, and the listener closed before or after: every connection the inner listener produced is either handed to exactly one Accept call - open, with its own scope un-released - or it has been closed and its scope released exactly once; when the listener is closed every goroutine has finished
 //verif:bound 2 connections, one registered connection type, cooperative schedule, timers fire when everything else is blocked
 //verif:stub identifyConnType hooked (symbolic outcome; on error it has closed the connection, as its contract says); inner listener, connections and scopes are counting stubs
+//verif:obligation C04.c' identifyConnType itself, for every outcome of setting the deadline, reading the first three bytes (any values) and clearing the deadline: an error return has closed the connection exactly once and hands nothing out (the listener relies on it: it only releases the scope); a success hands the connection on open, with the deadline cleared, also for a prefix no transport recognises
 //verif:outside a full accept queue (64 connections in identification at once), the 3-byte peek itself (C02.c), the kernel listener
 package tcpreuse
 
@@ -169,4 +170,62 @@ func VerifC04cSharedListener() {
 			vAssert(inner.scopes[i].done == 1, "a connection that is not handed out releases its scope exactly once")
 		}
 	}
+}
+
+// ---- the identification step itself (the contract the check above assumes) ----
+
+type vC04cRaw struct {
+	sampledconn.ManetTCPConnInterface
+	closed         int
+	deadlines      int
+	failDeadlineAt int // which SetReadDeadline call fails (0: none)
+	readFails      bool
+	first          [3]byte
+}
+
+func (c *vC04cRaw) Close() error { c.closed++; return nil }
+func (c *vC04cRaw) SetReadDeadline(t time.Time) error {
+	c.deadlines++
+	if c.deadlines == c.failDeadlineAt {
+		return errors.New("deadline refused")
+	}
+	return nil
+}
+func (c *vC04cRaw) Read(b []byte) (int, error) {
+	if c.readFails {
+		return 0, errors.New("connection reset")
+	}
+	return copy(b, c.first[:]), nil
+}
+
+func VerifC04cIdentify() {
+	c := &vC04cRaw{failDeadlineAt: vCase(3), readFails: vBool()}
+	for i := range c.first {
+		c.first[i] = vUint8()
+	}
+	typ, out, err := identifyConnType(c)
+	if err != nil {
+		vCover("identification-failed")
+		vAssert(c.closed == 1, "identifyConnType closes the connection exactly once when it returns an error (its callers only release the scope)")
+		vAssert(out == nil, "no connection is handed out with an error")
+		return
+	}
+	vAssert(c.failDeadlineAt == 0 && !c.readFails, "identification succeeds only if the deadline could be set and cleared and the first bytes arrived")
+	vAssert(out != nil && c.closed == 0, "an identified connection is handed on open")
+	vAssert(c.deadlines == 2, "the identification deadline is cleared again before the connection is handed on")
+	if typ == DemultiplexedConnType_Unknown {
+		vCover("unknown-prefix")
+	} else {
+		vCover("known-prefix")
+	}
+	want := DemultiplexedConnType_Unknown
+	switch {
+	case IsMultistreamSelect(c.first):
+		want = DemultiplexedConnType_MultistreamSelect
+	case IsTLS(c.first):
+		want = DemultiplexedConnType_TLS
+	case IsHTTP(c.first):
+		want = DemultiplexedConnType_HTTP
+	}
+	vAssert(typ == want, "the reported type follows the prefix matchers")
 }
